@@ -12,8 +12,11 @@ import common
 from common import xr, xvec, from_xr, from_xvec, num_close, tokens_close
 
 ID = "C15"
-TARGETS = ["Proofs.C15", "Proofs.C15Multi", "Proofs.C15Axis"]
-GEN_PREFIXES = []
+TARGETS = ["Proofs.C15", "Proofs.C15Multi", "Proofs.C15Axis", "Proofs.GenEq.Agg"]
+GEN_PREFIXES = ["agg."]
+# Proofs.GenEq.Agg only ties the hand-written Agg.apply to the source (the C15 theorems are about Agg.apply, which is
+# also tied by the agg.vec correspondence): tie-only obligations, DESIGN 8.7
+TIE_ONLY = {"prefix": "agg.", "modules": ["Proofs.GenEq.Agg"], "gen_op_heads": ["genagg"]}
 THEOREMS = {
     "Proofs.C15": ["VerifModel.C15." + t for t in [
         "C15_agg_sum", "C15_agg_mean", "C15_agg_min", "C15_agg_max", "C15_agg_range", "C15_agg_variance",
@@ -29,12 +32,22 @@ THEOREMS = {
         "C15_multi_cell", "C15_multi_field", "C15_multi_wf", "C15_multi_input", "C15_multi_borrowed_obs"]],
     "Proofs.C15Axis": ["VerifModel.C15." + t for t in [
         "C15_axis_norm", "C15_axis_every_dimension", "C15_axis_any", "C15_axis_any_cells", "C15_axis_out_of_range"]],
+    "Proofs.GenEq.Agg": ["VerifModel.GenEq.Agg." + t for t in [
+        "mean_eq", "median_eq", "min_eq", "max_eq", "std_eq", "variance_eq", "iqr_eq", "range_eq", "count_eq_model",
+        "sum_eq", "meanabs_eq", "absmean_eq", "change_eq", "abschange_eq", "quantile_eq", "call_eq",
+        "classNames_cover", "classNames_quantile", "initRejects_eq", "idx_first", "idx_last", "count_eq", "pct_level"]],
 }
 TRUSTED_BASE = [
     "Lean 4.33 kernel; axioms propext, Classical.choice, Quot.sound only",
     "Spec/Stats.lean: my reading of the documented statistics (textbook definitions on rational samples; "
     "quantile = linear interpolation at position (n-1)p, NumPy's documented default) and of the trailing window (l-h, l]; "
     "Spec/DataCoord.lean: the coordinate-based meaning of a Data request (shared with C01-C03)",
+    "Gen/Agg.lean: the __call__ body of every aggregator class (1-d reading, axis=None: which NumPy reduction, the percent "
+    "levels of Iqr, self.quantile*100, max - min and isnan-count through util.nprange / util.numvalid, the ends Change reads), "
+    "the class-name list of get_all() and the range test of Quantile.__init__ are regenerated from /repo by "
+    "harness/translate_more.py gen_agg on every run and proved equal to Agg.apply (Proofs/GenEq/Agg.lean); the translator is "
+    "trusted for the soundness of a successful translation and validated by stream agg.gen; the NumPy calls themselves are "
+    "the given primitives of Model/AggPrim.lean",
     "Model/Aggregator.lean (incl. callAxis: how each class treats the axis argument), Model/Preagg.lean, Model/PreaggData.lean "
     "(-T with several inputs = every loaded field replaced by its pre-aggregate on the input's own grid, then the Data model "
     "of Model/Data.lean): hand-written mirror of aggregator.py and data.py:442-600, 783-828, tied to the real code by the "
@@ -59,7 +72,9 @@ ASSUMPTIONS = [
     "agg.data2: a window containing a missing value has several acceptable readings (NaN, or the statistic of the valid values); "
     "the oracle makes no claim for such a cell, the model comparison still applies",
 ]
-RULE = ("agg.vec: every vector of length <= 3 over {-1,0,1/8,1,nan} plus seeded vectors of length 0..12 on a 1/8 grid in "
+RULE = ("agg.gen: the GENERATED class bodies (Gen.Agg.callByName) against the real aggregator(array) and the exact oracle: every "
+        "vector of length <= 2 over {-1,0,1/8,1,nan} and seeded vectors of length 0..12 x all 21 aggregator names; "
+        "agg.vec: every vector of length <= 3 over {-1,0,1/8,1,nan} plus seeded vectors of length 0..12 on a 1/8 grid in "
         "[-4,4] with ties and NaNs x all 14 aggregators and quantile levels {0,.1,.25,.5,.75,.9,1}; agg.axis: arrays of rank "
         "1..4 (extents 0..4), every axis; agg.axis.neg: rank 1..4, every axis named from the back (-1 ... -rank) and -rank-1; "
         "agg.axis.high: rank 5 and 6, axes 0 ... rank, -1, -rank; agg.window: irregular strictly ascending lead-time / time grids "
@@ -73,7 +88,9 @@ RULE = ("agg.vec: every vector of length <= 3 over {-1,0,1/8,1,nan} plus seeded 
         "an op is non-trivial if its reply contains a finite number")
 EXHAUSTIVE = {"quick": False, "thorough": False}
 EXHAUSTIVE_NOTE = "vectors of length <= 3 over a 5-letter alphabet are enumerated completely for all 21 aggregator names; the rest is seeded-random"
-LEVEL_TEXT = ("Lean theorems: each of the 15 aggregators, as modelled from aggregator.py, equals its textbook statistic on every "
+LEVEL_TEXT = ("The 1-d call of each of the 15 aggregator classes is machine-translated from aggregator.py on every run and proved "
+              "equal to the model function the theorems are about (GenEq.Agg.*_eq, call_eq). "
+              "Lean theorems: each of the 15 aggregators, as modelled from aggregator.py, equals its textbook statistic on every "
               "NaN-free rational sample (quantile 0/1/half = min/max/median, iqr = Q3/4 - Q1/4, count ignores NaN, NaN propagates "
               "through all others); applying an aggregator along any axis of an array of any rank aggregates exactly the fibers, and "
               "the class call aggregator(array, axis) is that reduction for every aggregator and every axis -rank <= axis < rank; "
@@ -228,6 +245,20 @@ def gen_ops(tier, rng):
     # --- name lookup
     for name in ALL + ["abs", "Mean", "quantile", "aggregator", "1.5", "-0.1", "0.0", "1.0", ".5", "0.333", "x1", "2"]:
         yield "agg.get", "aggget %s" % name
+    # --- the generated class bodies (Gen/Agg.lean) executed against the real classes; own rng so that the other streams keep their sample
+    import random as _random
+    grng = _random.Random(repr(rng.getstate()[1][:8]) + "agg.gen")
+    for n in range(0, 3):
+        for v in itertools.product([-1.0, 0.0, 0.125, 1.0, NAN], repeat=n):
+            for name in ALL:
+                yield "agg.gen", "genagg %s %s" % (name, xvec(v))
+    for _ in range(60 if quick else 1500):
+        n = grng.choice([0, 1, 2, 3, 4, 5, 6, 7, 8, 9, 10, 11, 12])
+        v = _vec(grng, n, grng.choice([0.0, 0.0, 0.0, 0.1, 0.3]))
+        if grng.random() < 0.1 and n:
+            v = [v[0]] * n
+        for name in ALL:
+            yield "agg.gen", "genagg %s %s" % (name, xvec(v))
     # --- vectors: exhaustive small scope, then seeded
     alpha = [-1.0, 0.0, 0.125, 1.0, NAN]
     for n in range(0, 4):
@@ -606,8 +637,14 @@ def _tcli(a):
     return ",".join(xr(float(r.split(",")[-1])) for r in rows) if rows else "-"
 
 
+def _ungen(op):
+    """a `genagg` op is the `agg` op executed with the generated definitions on the Lean side"""
+    return "agg" + op[6:] if op.startswith("genagg ") else op
+
+
 def impl(op):
     import verif.data
+    op = _ungen(op)
     a = op.split(" ")
     k = a[0]
     try:
@@ -773,6 +810,7 @@ def _cells(dims):
 
 
 def spec_op(op):
+    op = _ungen(op)
     a = op.split(" ")
     if a[0] == "agg":
         return "spec_agg %s %s" % (a[1], a[2])
@@ -789,6 +827,7 @@ def _spec_agrees(spec_tok, acc):
 
 
 def judge(op, impl_out, spec_out):
+    op = _ungen(op)
     a = op.split(" ")
     k = a[0]
     if common.mutated_verdict(op, impl_out):
@@ -1126,6 +1165,7 @@ def _judge_tdata2(a, impl_out):
 
 
 def cmp(op, impl_out, model_out):
+    op = _ungen(op)
     a = op.split(" ")
     if model_out == "UNMODELLED" or a[0] == "tcli":
         return True
@@ -1154,11 +1194,11 @@ def nontrivial(op, out):
 def shrink(op):
     """drop trailing entries of a 1-D sample / series"""
     a = op.split(" ")
-    if a[0] == "agg":
+    if a[0] in ("agg", "genagg"):
         v = a[2].split(",") if a[2] != "-" else []
         for n in range(0, len(v)):
             for cand in (v[:n], v[len(v) - n:]):
-                yield "agg %s %s" % (a[1], ",".join(cand) if cand else "-")
+                yield "%s %s %s" % (a[0], a[1], ",".join(cand) if cand else "-")
     if a[0] == "preagg":
         c, v = a[4].split(","), a[5].split(",")
         for n in range(1, len(c)):
